@@ -7,8 +7,11 @@ If(c, name) == IF c THEN {name} ELSE {}
 SetOf(s) == {s[k] : k \in DOMAIN s}
 Recent(h, c, rt)  == c - h <= rt
 Expired(h, c, tp) == h # 0 /\ c - h > tp
+NonDecreasing(s) == \A i \in 1..(Len(s) - 1) : s[i] = 0 \/ s[i + 1] = 0 \/ s[i] <= s[i + 1]
 Clauses(e, mx) ==
-  IF e.op \notin {"head", "heads"} THEN {} ELSE
+  IF e.op = "headseq" THEN If(~NonDecreasing(e.results), "C19_returned_heights_never_decrease")
+                           \cup If(~e.started, "IMPL_race_scenario_reached_its_yield_point")
+  ELSE IF e.op \notin {"head", "heads"} THEN {} ELSE
   LET sub == e.subBefore
       init == sub = 0 \/ Expired(sub, e.clock, e.tp)
       recent == ~init /\ Recent(sub, e.clock, e.rt)
